@@ -308,11 +308,17 @@ fn run_one(bin: &str, cfg: &Cfg, programs: &[Vec<u8>]) -> (Vec<String>, Vec<Stri
                     if st1 != 0 {
                         viols.push((vec!["C20", "C05"], format!("an item stored with TTL 4 s is gone after {:.1} s of real time (status {:#x}): the clock runs fast", t0.elapsed().as_secs_f32(), st1)));
                     }
-                    std::thread::sleep(Duration::from_millis(3400));
+                    // real elapsed seconds, also across a pause of the whole process (a stopped VM, a debugger, SIGSTOP): the
+                    // server is frozen for 2.9 s and must have caught up with real time when the item's 4 s are over
+                    let pid = _p2.child.id() as i32;
+                    unsafe { libc::kill(pid, libc::SIGSTOP) };
+                    std::thread::sleep(Duration::from_millis(2900));
+                    unsafe { libc::kill(pid, libc::SIGCONT) };
+                    std::thread::sleep(Duration::from_millis(600));
                     let r = roundtrip(&mut c, &wire::key_only(op::GET, b"ttl", 0, 3).bytes(), 1000);
                     let st2 = wire::parse_resp(&r).map(|r| r.status).unwrap_or(9);
                     if st2 != 1 {
-                        viols.push((vec!["C20", "C05"], format!("an item stored with TTL 4 s is still returned after {:.1} s of real time (status {:#x}): the clock runs slow or not at all", t0.elapsed().as_secs_f32(), st2)));
+                        viols.push((vec!["C20", "C05", "C08"], format!("an item stored with TTL 4 s is still returned after {:.1} s of real time, 2.9 s of which the server process was stopped (status {:#x}): the clock runs slow, not at all, or loses the seconds it was not scheduled", t0.elapsed().as_secs_f32(), st2)));
                     }
                 }
                 continue;
